@@ -347,13 +347,65 @@ def queryStep (nodes : List Node) (loop : Option Nat) (q : String) (ob : String)
     | _, _, _, _ => none
   | _ => none
 
+/-- an assignment to a feature of the chain between two queries: `O<k>=<o>` (the orientation of node
+    `k`, which must be an Orienter) or `M<k>=<s>` (its start); `k` counts from the bottom feature, 0-based -/
+def parseChainOp (tok : String) : Option (String × ChainOp) :=
+  match splitOp tok with
+  | some (k, arg) =>
+    let idx := (k.drop 1).toString
+    if k.startsWith "O" then
+      match parseNat idx, parseInt arg with
+      | some i, some o => some ("O", .orient i o)
+      | _, _ => none
+    else if k.startsWith "M" then
+      match parseNat idx, parseInt arg with
+      | some i, some st => some ("M", .move i st)
+      | _, _ => none
+    else none
+  | none => none
+
+/-- the operation is one the harness can carry out on this chain: the node exists and, for `O`, has
+    an orientation to assign -/
+def chainOpValid (c : Chain) : ChainOp → Bool
+  | .orient k _ => match c[k]? with
+    | some x => x.orient.isSome
+    | none => false
+  | .move k _ => k < c.length
+
+/-- what the harness reads back from the feature after the assignment -/
+def showChainOp (c : Chain) (kind : String) (k : Nat) : String :=
+  match c[k]? with
+  | some x =>
+    if kind == "O" then (match x.orient with | some o => s!"O {o}" | none => "O x") else s!"M {x.start}"
+  | none => kind ++ " ?"
+
+/-- a step of a `ch` history: a query on the chain as it is now, or a change of the chain; the state is
+    the current list of nodes and the queries asked so far (to tag a query that is repeated after a change) -/
+def chStep (loop : Option Nat) (st : List Node × List String × Bool) (tok : String) (ob : String) :
+    Option ((List Node × List String × Bool) × Step) :=
+  let (nodes, asked, changed) := st
+  if (tok.splitOn "=").length > 1 then
+    match parseChainOp tok with
+    | some (kind, op) =>
+      if !chainOpValid nodes op then none else
+      let nodes' := chainApply nodes op
+      some ((nodes', asked, true),
+        { model := showChainOp nodes' kind op.index,
+          tags := [if kind == "O" then "orientation-changed-between-queries" else "node-moved-between-queries"] })
+    | none => none
+  else
+    match queryStep nodes loop tok ob with
+    | some step =>
+      let tags := step.tags ++ (if changed then ["query-after-a-change"] else [])
+        ++ (if changed && asked.contains tok then ["same-query-before-and-after-a-change"] else [])
+      some ((nodes, tok :: asked, changed), { step with tags })
+    | none => none
+
 def handleCH (chain loopTok : String) (qs : List String) (obs : String) : Verdict :=
   match parseChainFrom 1 chain with
   | some nodes =>
     let loop := if loopTok == "-" then none else parseNat loopTok
-    let obsP := pieces obs
-    let steps := (List.zipIdx qs).mapM fun (q, i) => queryStep nodes loop q (obsP.getD i "")
-    match steps with
+    match runHist (chStep loop) (nodes, [], false) qs (pieces obs) with
     | some steps =>
       let base := ["ch", if nodes.length ≥ 900 then "depth-near-limit" else s!"depth-{nodes.length}"]
         ++ (if loop.isSome then ["cycle"] else [])
@@ -365,14 +417,8 @@ def handleCH (chain loopTok : String) (qs : List String) (obs : String) : Verdic
 
 structure TxCfg where
   coding : Bool
-  node : Node          -- the transcript as a feature (id 1)
-  loc : Chain
   cdsStart : Int
   cdsEnd : Int
-
-structure TxState where
-  h : Heap
-  t : Tx
 
 def showTF : Except Panic TF → String
   | .ok f => s!"{f.start}:{f.stop}"
@@ -387,8 +433,10 @@ def parsePiece (s : String) : Option Piece :=
   | _ => none
 
 /-- The statement of C20 for a transcript after one operation, on the implementation's
-    observation; `prev` is the exon set the implementation showed before the operation. -/
-def specTx (cfg : TxCfg) (kind : String) (args prev : List Exon) (t : List String) : Option String × List Exon :=
+    observation; `prev` is the exon set the implementation showed before the operation, `node` and
+    `loc` the location chain as it is after the operation (the *current* orientations). -/
+def specTx (cfg : TxCfg) (node : Node) (loc : Chain) (kind : String) (args prev : List Exon) (t : List String) :
+    Option String × List Exon :=
   match t with
   | [err, exons, intr, sel, u5, cd, u3, sh] =>
     match parseExons exons, parseIntrons intr, parseInts sel with
@@ -399,76 +447,101 @@ def specTx (cfg : TxCfg) (kind : String) (args prev : List Exon) (t : List Strin
         | some a, some b, some c => some (a, b, c)
         | _, _, _ => none
       let r : Option String :=
-        txStatement cfg.coding cfg.node cfg.loc cfg.cdsStart cfg.cdsEnd kind (err == "ok") args prev es is
+        txStatement cfg.coding node loc cfg.cdsStart cfg.cdsEnd kind (err == "ok") args prev es is
           tstart tend tlen utr sh
       (r, es)
     | _, _, _ => (some "unparsable-observation", prev)
   | _ => (some "unparsable-observation", prev)
 
-def txModel (cfg : TxCfg) (h : Heap) (t : Tx) (e : Option Err) : String :=
-  let es := read h t.exons
+/-- the model's observation in state `st` (`Model/Gene.lean`: `TcState`, the chain as it is now;
+    `layout` = `UTR5`, `CDS`, `UTR3` computed from it) -/
+def txModel (cfg : TxCfg) (st : TcState) (e : Option Err) : String :=
+  let es := read st.h st.t.exons
   let len := endOf es
-  let base := s!"{errCode e} {showExons es} {showIntrons (introns es)} {cfg.node.start},{cfg.node.start + len},{len}"
+  let base := s!"{errCode e} {showExons es} {showIntrons (introns es)} {st.node.start},{st.node.start + len},{len}"
   if cfg.coding then
-    let c : Coding := { node := cfg.node, loc := cfg.loc, cdsStart := cfg.cdsStart, cdsEnd := cfg.cdsEnd, len := len }
-    let u5 := utr5 c
-    let u3 := utr3 c
+    let (u5, cd, u3) := layout st cfg.cdsStart cfg.cdsEnd
     let sh := match u5, u3 with
       | .ok a, .ok b => s!"{a.start},{a.stop},{b.start},{b.stop}"
       | .error e, _ => panicTok e
       | _, .error e => panicTok e
-    s!"{base} {showTF u5} {showTF (.ok (cds c))} {showTF u3} {sh}"
+    s!"{base} {showTF u5} {showTF (.ok cd)} {showTF u3} {sh}"
   else base ++ " - - - -"
 
-/-- the model's operation for an operation token: `S`, `A`, `R`, and `Z<j>` (`Z` = `Z0`) -/
-def parseTxOp (k : String) (args : List Exon) : Option (String × TxOp) :=
-  if k == "S" then some ("S", .set args) else if k == "A" then some ("A", .addDrop args)
-  else if k == "R" then some ("R", .addSet args)
-  else if k.startsWith "Z" then
-    let js := (k.drop 1).toString
-    if js.isEmpty then some ("Z", .resliceAdd 0 args) else (parseNat js).map fun j => ("Z", .resliceAdd j args)
-  else none
-
-/-- state: model heap and transcript, and the exon set last shown by the implementation -/
-def txStep (cfg : TxCfg) (st : TxState × List Exon) (op : String) (ob : String) : Option ((TxState × List Exon) × Step) :=
-  match splitOp op with
+/-- the model's operation for an operation token: `S`, `A`, `R`, `Z<j>` (`Z` = `Z0`) with an exon list,
+    `O<k>=<o>` / `M<k>=<s>` (a change of the location chain; `k = 0` is the transcript itself) -/
+def parseTxOp (tok : String) : Option (String × TcOp × List Exon) :=
+  match splitOp tok with
   | some (k, arg) =>
-    match parseExons arg with
-    | some args =>
-      let (ms, prev) := st
-      match parseTxOp k args with
-      | some (kind, mop) =>
-        let ((h', t'), e) := txApply (ms.h, ms.t) mop
-        let (viol, shown) := specTx cfg kind args prev (tokens ob)
-        let n := (read h' t'.exons).length
-        let ztags : List String :=
-          match mop with
-          | .resliceAdd j _ =>
-            let recv := resliceTo ms.h ms.t.exons j
-            [if recv.len == 0 then "reset-receiver" else "resliced-receiver",
-             if args.length ≤ cap ms.h recv - recv.len then "args-fit-spare-capacity" else "args-exceed-spare-capacity"]
-            ++ (if cap ms.h recv > recv.len && args.length ≤ cap ms.h recv - recv.len then
-                  [if e.isSome then "rejected-Add-into-live-exons" else "accepted-Add-into-live-exons"] else [])
-          | _ => []
-        let tags := [if e.isSome then "rejected" else "accepted", "op-" ++ kind, "nt"]
-          ++ (if e.isSome then ["err-" ++ errCode e] else [])
-          ++ (if n ≤ 1 then ["single-exon"] else if n > 12 then ["more-than-12-exons"] else [])
-          ++ (if (introns (read h' t'.exons)).any (·.len == 0) then ["abutting-exons"] else [])
-          ++ ztags
-        some (({ h := h', t := t' }, shown), { model := txModel cfg h' t' e, viol, tags })
+    if k.startsWith "O" || k.startsWith "M" then
+      (parseChainOp tok).map fun (kind, op) => (kind, .chain op, [])
+    else
+      match parseExons arg with
+      | some args =>
+        if k == "S" then some ("S", .tx (.set args), args) else if k == "A" then some ("A", .tx (.addDrop args), args)
+        else if k == "R" then some ("R", .tx (.addSet args), args)
+        else if k.startsWith "Z" then
+          let js := (k.drop 1).toString
+          if js.isEmpty then some ("Z", .tx (.resliceAdd 0 args), args)
+          else (parseNat js).map fun j => ("Z", .tx (.resliceAdd j args), args)
+        else none
       | none => none
-    | none => none
+  | none => none
+
+/-- state: the model's (`TcState`: heap, transcript, current chain), and the exon set last shown by the
+    implementation -/
+def txStep (cfg : TxCfg) (st : TcState × List Exon) (tok : String) (ob : String) : Option ((TcState × List Exon) × Step) :=
+  let (ms, prev) := st
+  match parseTxOp tok with
+  | some (kind, mop, args) =>
+    let valid := match mop with
+      | .chain op => chainOpValid (ms.node :: ms.loc) op
+      | .tx _ => true
+    if !valid then none else
+    let (ms', e) := tcApply ms mop
+    let (viol, shown) := specTx cfg ms'.node ms'.loc kind args prev (tokens ob)
+    let n := (read ms'.h ms'.t.exons).length
+    let ztags : List String :=
+      match mop with
+      | .tx (.resliceAdd j _) =>
+        let recv := resliceTo ms.h ms.t.exons j
+        [if recv.len == 0 then "reset-receiver" else "resliced-receiver",
+         if args.length ≤ cap ms.h recv - recv.len then "args-fit-spare-capacity" else "args-exceed-spare-capacity"]
+        ++ (if cap ms.h recv > recv.len && args.length ≤ cap ms.h recv - recv.len then
+              [if e.isSome then "rejected-Add-into-live-exons" else "accepted-Add-into-live-exons"] else [])
+      | .chain op =>
+        let before := if ms.node.oriented then orientProduct (ms.node :: ms.loc) else 0
+        let after := if ms'.node.oriented then orientProduct (ms'.node :: ms'.loc) else 0
+        (match op with
+          | .orient k _ =>
+            [if k == 0 then "orientation-change-of-the-transcript" else "orientation-change-above-the-transcript",
+             s!"orientation-change-at-level-{k}",
+             if before == after then "base-orientation-unchanged"
+             else if before == 0 then "base-orientation-defined-by-the-change"
+             else if after == 0 then "base-orientation-undefined-by-the-change"
+             else "base-orientation-flipped"]
+            ++ (if k > 0 && before != after && before != 0 && cfg.coding && prev.length > 0 then
+                  ["UTR-query-before-and-after-an-orientation-change-above-the-transcript"] else [])
+          | .move k _ => [if k == 0 then "transcript-moved" else "location-moved"])
+      | _ => []
+    let tags := [if e.isSome then "rejected" else "accepted", "op-" ++ kind, "nt"]
+      ++ (if e.isSome then ["err-" ++ errCode e] else [])
+      ++ (if n ≤ 1 then ["single-exon"] else if n > 12 then ["more-than-12-exons"] else [])
+      ++ (if (introns (read ms'.h ms'.t.exons)).any (·.len == 0) then ["abutting-exons"] else [])
+      ++ ztags
+    some ((ms', shown), { model := txModel cfg ms' e, viol, tags })
   | none => none
 
 def handleTX (kind hdr chain : String) (ops : List String) (obs : String) : Verdict :=
   match parseInts hdr, parseChainFrom 10 chain with
   | some [off, ori, cs, ce], some loc =>
-    let cfg : TxCfg := { coding := kind == "c", node := ⟨1, off, some ori⟩, loc, cdsStart := cs, cdsEnd := ce }
-    match runHist (txStep cfg) ({ h := (txInit 1).1, t := (txInit 1).2 }, []) ops (pieces obs) with
+    let cfg : TxCfg := { coding := kind == "c", cdsStart := cs, cdsEnd := ce }
+    let node : Node := ⟨1, off, some ori⟩
+    match runHist (txStep cfg) (tcInit 1 node loc, []) ops (pieces obs) with
     | some steps =>
-      let o := orientProduct (cfg.node :: cfg.loc)
+      let o := orientProduct (node :: loc)
       let base := ["tx", if cfg.coding then "coding" else "noncoding", s!"levels-{loc.length + 1}",
-                   if !cfg.node.oriented then "not-oriented" else if o = -1 then "base-reverse" else "base-forward"]
+                   if !node.oriented then "not-oriented" else if o = -1 then "base-reverse" else "base-forward"]
       finish base steps obs
     | none => bad "tx op"
   | _, _ => bad "tx header"
